@@ -111,6 +111,7 @@ library: clib
 language: c
 options:
   wrap_python: true
+  PY_struct_arg: class
 declarations:
 - decl: int add(int a, int b)
 - decl: void fill(char *name +intent(out)+charlen(20))
